@@ -16,6 +16,15 @@ package segment
 //@ predicate padLen_readme(n) = (8 - n % 8) % 8
 //@ predicate padLen_spec(n) = (0 - n) & 7
 
+//@ -- the numeric values of the documented format (README.md, "File Format"):
+//@ -- frame types, header sizes and the magic number are fixed by the
+//@ -- documentation, not by whatever the constants happen to be declared as
+//@ lemma readme_constants
+//@   props C09
+//@   prove[C09.readme-frame-types] FrameEntry == 1 && FrameIndex == 2 && FrameCommit == 3
+//@   prove[C09.readme-header-sizes] frameHeaderLen == 8 && fileHeaderLen == 32
+//@   prove[C09.readme-magic] magic == 0x58eb6b0d
+
 //@ lemma pad_spec_equiv
 //@   props C09 C15
 //@   vars n int
